@@ -61,6 +61,7 @@ fn stats_json(s: &Stats) -> J {
         .set("rare_site_suspensions", J::u(s.rare_site_suspensions))
         .set("atomic_yields", J::u(s.atomic_yields))
         .set("preempt_atomic", J::u(s.preempt_atomic))
+        .set("ops_with_outside_threads", J::u(s.ops_with_outside_threads))
 }
 
 fn fnv_u32s(d: &[u32]) -> u64 {
@@ -374,13 +375,14 @@ pub fn cmd_trace(args: &Args) -> i32 {
             })
             .collect();
         println!(
-            "run={} n={} dec={:016x}/{} steps={} switches={} ops=[{}] out=[{}] viol={}",
+            "run={} n={} dec={:016x}/{} steps={} switches={} outside_threads={} ops=[{}] out=[{}] viol={}",
             idx,
             plan.cases[0].n(),
             fnv_u32s(&r.decisions),
             r.decisions.len(),
             r.stats.scheduler_steps,
             r.stats.context_switches,
+            r.stats.ops_with_outside_threads,
             oh.join(","),
             oc.join(","),
             v.is_some()
